@@ -241,13 +241,16 @@ func (env *Env) ident(name string) TV {
 		if tv, ok := env.localByName(name); ok {
 			return tv
 		}
+		if tv, ok := env.ex.params[name]; ok {
+			return tv // no local copy in this state (e.g. old(param)): the entry value
+		}
 	}
 	if d := env.lookupDef(name); d != nil && len(d.Params) == 0 && d.Kind == "const" {
 		return env.child().eval(d.Body)
 	}
 	// package-level Go constant or variable of the function's package
 	if env.ex.fn != nil {
-		if tv, ok := env.pkgObject(env.ex.fn.Pkg.Pkg, name); ok {
+		if tv, ok := env.pkgObject(env.specPkg(), name); ok {
 			return tv
 		}
 	}
@@ -282,7 +285,7 @@ func (env *Env) qualified(pkgName, name string) (TV, bool) {
 	if env.ex.fn == nil {
 		return TV{}, false
 	}
-	for _, imp := range env.ex.fn.Pkg.Pkg.Imports() {
+	for _, imp := range env.specPkg().Imports() {
 		if imp.Name() == pkgName {
 			return env.pkgObject(imp, name)
 		}
@@ -606,13 +609,14 @@ func (env *Env) binop(e *SExpr) TV {
 	case "<<":
 		k, ok := litVal(y.T)
 		if !ok {
-			sfail("shift amount must be literal in %s", e)
+			// symbolic amount: 64-bit unsigned semantics, exactly as the code's shift
+			return mathInt(env.ex.shiftTerm(env.sinkState(), true, x.T, y.T, 64, false))
 		}
 		return mathInt(tMul(x.T, bigLit(pow2(uint(k.Uint64())))))
 	case ">>":
 		k, ok := litVal(y.T)
 		if !ok {
-			sfail("shift amount must be literal in %s", e)
+			return mathInt(env.ex.shiftTerm(env.sinkState(), false, x.T, y.T, 64, false))
 		}
 		return mathInt(app(SInt, "div", x.T, bigLit(pow2(uint(k.Uint64())))))
 	}
@@ -775,6 +779,11 @@ func (env *Env) call(e *SExpr) TV {
 		if name == "hastype" {
 			return boolTV(tEq(iv.Typ, env.ex.typeID(t)))
 		}
+		switch under(t).(type) {
+		case *types.Struct, *types.Array, *types.Slice:
+			// a value boxed by value lives in the box heap of its type
+			return TV{env.loadSpec(env.cur, Loc{Kind: "O", Base: "box:" + typeKeyString(t), Dims: []Term{iv.Val}, Type: t}), t}
+		}
 		return TV{Sc{iv.Val}, t}
 	case "firstIndex":
 		// firstIndex(s, v): the least index at which slice s holds scalar v, or len(s) if none. A definitional
@@ -807,6 +816,29 @@ func (env *Env) call(e *SExpr) TV {
 			Term{fmt.Sprintf("(forall ((m!fi Int)) %s)", tImp(tAnd(tLe(intLit(0), m), tLt(m, p)), tNot(tEq(probe, v))).S), SBool})
 		env.assumeSide(def)
 		return mathInt(p)
+	case "mapof":
+		// mapof(j, expr): the integer-indexed array A with A[j] = expr for every j (a definitional extension: a fresh
+		// array constant constrained pointwise). Lets lemmas over abstract arrays be applied to heap data.
+		if len(e.Args) != 2 || e.Args[0].Kind != "ident" || env.inQuant > 0 {
+			sfail("mapof(j, expr) expected outside quantifiers")
+		}
+		n := env.child()
+		n.inQuant++
+		bv := Term{fmt.Sprintf("%s!q%d", sanitize(e.Args[0].Op), env.ex.ctx.counter["q"]), SInt}
+		env.ex.ctx.counter["q"]++
+		n.vars[e.Args[0].Op] = TV{Sc{bv}, nil}
+		body := n.eval(e.Args[1]).V.(Sc).T
+		ck := "mapof|" + strings.ReplaceAll(body.S, bv.S, "?")
+		arr, seen := env.ex.fidx[ck]
+		if !seen {
+			arr = env.ex.ctx.Fresh("mapof", arrSort(SInt, body.Sort))
+			env.ex.fidx[ck] = arr
+		}
+		env.assumeSide(Term{fmt.Sprintf("(forall ((%s Int)) (= (select %s %s) %s))", bv.S, arr.S, bv.S, body.S), SBool})
+		return TV{Sc{arr}, nil}
+	case "mkiface":
+		// mkiface(typ, val): the interface value with that (type id, value) pair — inverse of typeid()/ifaceval()
+		return TV{If{env.evalInt(e.Args[0]), env.evalInt(e.Args[1])}, nil}
 	case "visited":
 		// visited(k): key k has already been produced by the enclosing `range` over a map
 		var pick *rangeIter
@@ -876,12 +908,19 @@ func (env *Env) call(e *SExpr) TV {
 		}
 		return n.eval(d.Body)
 	}
-	if uf, ok := env.ex.db.ufs[name]; ok {
-		args := make([]Term, len(e.Args))
-		for i, a := range e.Args {
-			args[i] = env.eval(a).V.(Sc).T
+	if uf, ok := env.lookupUFunc(name); ok {
+		var args []Term
+		for _, a := range e.Args {
+			switch v := env.eval(a).V.(type) {
+			case Sc:
+				args = append(args, v.T)
+			case If: // an interface value is its (dynamic type, value) pair
+				args = append(args, v.Typ, v.Val)
+			default:
+				sfail("ufunc %s: argument %s must be a scalar or an interface value", name, a)
+			}
 		}
-		return TV{Sc{env.ex.uf(env.cur, "spec_"+name, uf, args...)}, nil}
+		return TV{Sc{env.ex.uf(env.cur, env.ufuncName(name), uf, args...)}, nil}
 	}
 	sfail("unknown spec function %s", name)
 	return TV{}
